@@ -2,30 +2,60 @@
 from plan import H, nlimbs
 
 FMT = ("alloc::fmt::format", "stubs::format_stub")
-PROBED_TO = [8, 64, 65]      # 128: solver counterexample does not reproduce natively (CBMC exp2 model), not registered
-PROBED_MONO = [8, 64]
+# CBMC's exp2 is an approximate model with a nondeterministic error term; ruint calls exp2 on integer-valued arguments
+# only, where the exact result is a bit pattern: the stub builds it (and fails the harness on a non-integer argument)
+EXP2 = [("f64::exp2", "stubs::exp2_exact"), ("f32::exp2", "stubs::exp2f_exact")]
 CLS = ["nan", "negative", "below_half", "half_to_2p52", "2p52_to_2p53", "ge_2p53", "pos_inf"]
+CLSDOM = ["every NaN bit pattern (both signs, all payloads)", "every float below zero incl. -inf",
+          "+0, -0 and every float in [0, 1/2) incl. subnormals", "every float in [1/2, 2^52)", "every float in [2^52, 2^53)",
+          "every finite float >= 2^53", "+infinity"]
 
 
 def harnesses():
     out = []
-    # float -> Uint: only the NaN class finishes.  Every other class drags `value % modulus` (CBMC models fmod with
-    # a loop) and the recursive re-entry of try_from into the formula: > 300 s even for the constant input +inf
-    # (measured).  The class bodies stay in c18.rs; they are not registered.
-    for b in [0, 1, 8, 64, 65]:
+    for b in [0, 1, 8, 52, 53, 54, 64, 65, 128, 256]:
         l = nlimbs(b)
         inst = "Uint<%d,%d> <- f64" % (b, l)
-        out.append(H("c18_from_f64_%d_nan" % b, "C18", "c18::from_f64::<%d,%d,0>" % (b, l), unwind=max(l + 2, 4),
-                     tier="quick" if b in (1, 8, 64) else "thorough", timeout=1800, inst=inst, stubs=[FMT],
-                     role="c18::from_f64.nan", domain="every NaN bit pattern (both signs, all payloads)", free_bits=53,
-                     fns=["TryFrom<f64>", "saturating_from", "wrapping_from"]))
-    for b in PROBED_TO:
+        for c, cn in enumerate(CLS):
+            quick = b in (1, 8, 64, 128)
+            cov = []
+            if c in (3, 4, 5):
+                # which outcomes exist in the class at this width
+                lo = {3: 1, 4: 53, 5: 54}[c]      # smallest bit length of a value in the class
+                hi = {3: 53, 4: 54, 5: 2000}[c]   # largest
+                if b >= lo and c != 3:
+                    cov.append("fits")
+                if c == 3 and b >= 1:
+                    cov.append("fits")
+                if b < hi:
+                    cov.append("too-large")
+            out.append(H("c18_try_from_f64_%d_%s" % (b, cn), "C18", "c18::try_from_f64::<%d,%d,%d>" % (b, l, c),
+                         unwind=max(l + 2, 6), tier="quick" if quick else "thorough", timeout=1800, inst=inst,
+                         stubs=[FMT] + EXP2, role="c18::try_from_f64." + cn, domain=CLSDOM[c] + "; exp2 on integer arguments "
+                         "replaced by the exact power of two", free_bits=64, fns=["TryFrom<f64>"], covers_required=cov))
+            out.append(H("c18_saturating_from_f64_%d_%s" % (b, cn), "C18", "c18::saturating_from_f64::<%d,%d,%d>" % (b, l, c),
+                         unwind=max(l + 2, 6), tier="quick" if b in (8, 64) else "thorough", timeout=1800, inst=inst,
+                         stubs=[FMT] + EXP2, role="c18::saturating_from_f64." + cn, domain=CLSDOM[c], free_bits=64,
+                         fns=["saturating_from::<f64>", "TryFrom<f64>"]))
+    for b in [0, 1, 8, 24, 25, 64, 65, 128, 129]:
+        l = nlimbs(b)
+        out.append(H("c18_from_f32_%d" % b, "C18", "c18::from_f32::<%d,%d>" % (b, l), unwind=max(l + 2, 6),
+                     tier="quick" if b in (8, 64, 128) else "thorough", timeout=1800, inst="Uint<%d,%d> <- f32" % (b, l),
+                     stubs=[FMT] + EXP2, domain="every f32 bit pattern", free_bits=32, fns=["TryFrom<f32>", "TryFrom<f64>"]))
+    for b in [0, 1, 8, 53, 54, 64, 65, 128, 129, 192, 256]:
         l = nlimbs(b)
         out.append(H("c18_to_f64_%d" % b, "C18", "c18::to_f64::<%d,%d>" % (b, l), unwind=8 * l + 4,
-                     tier="quick" if b in (8, 64) else "thorough", timeout=3600, inst="f64 <- Uint<%d,%d>" % (b, l),
-                     domain="FULL value", free_bits=b, fns=["From<Uint> for f64", "most_significant_bits"]))
-        if b in PROBED_MONO:
-          out.append(H("c18_to_f64_monotone_%d" % b, "C18", "c18::to_f64_monotone::<%d,%d>" % (b, l), unwind=8 * l + 4,
-                     tier="thorough", timeout=3600, inst="f64 <- Uint<%d,%d>" % (b, l),
-                     domain="FULL ordered pairs", free_bits=2 * b, fns=["From<Uint> for f64"]))
+                     tier="quick" if b in (8, 64, 128) else "thorough", timeout=3600, inst="f64 <- Uint<%d,%d>" % (b, l),
+                     stubs=EXP2, domain="FULL value", free_bits=b, fns=["From<Uint> for f64", "most_significant_bits"]))
+        out.append(H("c18_to_f32_%d" % b, "C18", "c18::to_f32::<%d,%d>" % (b, l), unwind=8 * l + 4,
+                     tier="quick" if b in (8, 64, 128) else "thorough", timeout=3600, inst="f32 <- Uint<%d,%d>" % (b, l),
+                     stubs=EXP2, domain="FULL value", free_bits=b, fns=["From<Uint> for f32", "most_significant_bits"],
+                     covers_required=(["infinite"] if b >= 128 else [])))
+        if b in (8, 64, 65, 128, 129):
+            out.append(H("c18_to_f64_monotone_%d" % b, "C18", "c18::to_f64_monotone::<%d,%d>" % (b, l), unwind=8 * l + 4,
+                         tier="thorough", timeout=3600, inst="f64 <- Uint<%d,%d>" % (b, l), stubs=EXP2,
+                         domain="FULL ordered pairs", free_bits=2 * b, fns=["From<Uint> for f64"]))
+            out.append(H("c18_to_f32_monotone_%d" % b, "C18", "c18::to_f32_monotone::<%d,%d>" % (b, l), unwind=8 * l + 4,
+                         tier="thorough", timeout=3600, inst="f32 <- Uint<%d,%d>" % (b, l), stubs=EXP2,
+                         domain="FULL ordered pairs", free_bits=2 * b, fns=["From<Uint> for f32"]))
     return out
